@@ -83,6 +83,41 @@ def cases(tier, seed):
         for rows in (1, 2, 3):
             cs.append({'scen': 'tt_apply_mask', 's': {'N': N, 'R': R, 'rows': rows, 'dtype': 'float64'}})
     cs.append({'scen': 'tt_apply_mask', 's': {'N': [2, 3], 'R': [1, 2, 1], 'rows': 2, 'dtype': 'complex128'}})
+    # ---- shape level: symbolic mode sizes, symbolic integer indices and symbolic slice bounds
+    SH = {'shim': 'shape', 'scalar_mode': 'A', 'logic': None, 'max_paths': 3000 if not th else 20000, 'case_timeout_s': 200 if not th else 1500}
+    Bs = 3 if not th else 4
+    S_ALL = ['slice', None, None, None]
+    S_SS = ['slice', 'sym', 'sym', None]
+    S_S1 = ['slice', 'sym', None, None]
+    S_2 = ['slice', None, 'sym', None]
+    S_STEP = ['slice', None, None, 'sym']
+    S_FULL = ['slice', 'sym', 'sym', 'sym']
+    for d in ((1, 2) if not th else (1, 2, 3)):
+        kinds = ['int', S_ALL, S_SS, S_S1, S_2, S_STEP] + ([S_FULL] if d == 1 or th else [])
+        combos = list(itertools.product(kinds, repeat=d))
+        if len(combos) > 24 and not th:
+            combos = rng.sample(combos, 24)
+        for c in combos:
+            if sum(1 for k in c if k != 'int' and 'sym' in k) > 2 and not th:
+                continue
+            cs.append({'scen': 'getitem_shape', 's': {'d': d, 'B': Bs, 'index': [k if isinstance(k, str) else list(k) for k in c]}, 'opts': SH})
+        for pos in range(d + 1):
+            idx = [S_S1 if i % 2 == 0 else 'int' for i in range(d)]
+            idx.insert(pos, 'none')
+            cs.append({'scen': 'getitem_shape', 's': {'d': d, 'B': Bs, 'index': [k if isinstance(k, str) else list(k) for k in idx]}, 'opts': SH})
+        for k in range(d + 1):
+            cs.append({'scen': 'getitem_shape', 's': {'d': d, 'B': Bs, 'index': ['ell'] + ['int' if j % 2 == 0 else list(S_2) for j in range(k)]}, 'opts': SH})
+            cs.append({'scen': 'getitem_shape', 's': {'d': d, 'B': Bs, 'index': [list(S_S1) if j % 2 == 0 else 'int' for j in range(k)] + ['ell']}, 'opts': SH})
+        if d == 1:
+            for it in ('int', S_SS, S_STEP, 'ell'):
+                cs.append({'scen': 'getitem_shape', 's': {'d': 1, 'B': Bs, 'index': [it if isinstance(it, str) else list(it)], 'bare': True}, 'opts': SH})
+    for d in (1, 2):
+        pk = [('int', 'int'), (S_ALL, S_ALL), (S_SS, S_S1), (S_2, S_STEP)]
+        for c in itertools.product(pk, repeat=d):
+            idx = [p[0] for p in c] + [p[1] for p in c]
+            if sum(1 for k in idx if k != 'int' and 'sym' in k) > 3:
+                continue
+            cs.append({'scen': 'getitem_shape', 's': {'d': d, 'B': Bs, 'ttm': True, 'index': [k if isinstance(k, str) else list(k) for k in idx]}, 'opts': SH})
     return cs
 
 
@@ -93,6 +128,9 @@ def opts(tier):
 
 def sig(case, label):
     s = case['s']
+    if case['scen'] == 'getitem_shape':
+        kinds = ['int' if it == 'int' else (it if isinstance(it, str) else 'slice') for it in s['index']]
+        return 'getitem_shape:%s:%s%s:%s' % ('ttm' if s.get('ttm') else 'tt', 'bare:' if s.get('bare') else '', '+'.join(sorted(set(kinds))), label)
     if case['scen'] == 'tt_getitem':
         kinds = []
         singleton_kept = False
@@ -126,7 +164,7 @@ def meta(tier):
                   'partial/negative-bound slices, length-1 slices, step-2 slices}; None at every position; leading/trailing Ellipsis with 0..d explicit items; '
                   'bare int/slice/Ellipsis; operators: int pairs and slice pairs; apply_mask with a symbolic M x d index matrix, M <= 3; integer index values '
                   'are solver variables, slice bounds enumerated',
-        'outside': 'IEEE rounding; sizes > 4; symbolic slice bounds (shape agreement for those is decided at the shape level, C08 S-harness); negative steps (torch rejects them)',
+        'outside': 'IEEE rounding; sizes > 4; values under symbolic slice bounds (only the shape is decided for those, at the shape level: mode sizes in [1,3] (thorough 4), int indices and slice start/stop in [-B-1, B+1], steps in [1,3] as z3 integers); negative steps (torch rejects them)',
         'assumptions': ['symtorch models torch indexing (validated per run against real torch on seeded inputs)',
                         'z3 sat/unsat verdicts; unknown/time-out counted inconclusive'],
         'tv_max': 80,
